@@ -909,7 +909,8 @@ func (u *Unit) havocLoop(st *State, fr *Frame, li *loopInfo) {
 				// what the loop changes is unknown only because a function of the module it
 				// calls has no contract: everything is forgotten at its head, and what fails
 				// behind it may fail for that reason alone
-				st.weaken("loop " + li.label + " of " + fr.Fn.String() + " calls " + strings.TrimPrefix(w, "uncontracted in-repo callee ") + ", which has no contract: everything is forgotten at the loop head")
+				why := "loop " + li.label + " of " + fr.Fn.String() + " calls " + strings.TrimPrefix(w, "uncontracted in-repo callee ") + ", which has no contract: everything was forgotten at the loop head"
+				st.ExitWeak = append(append([]exitWeak(nil), st.ExitWeak...), exitWeak{fn: fr.Fn, blocks: li.blocks, why: why})
 				break
 			}
 		}
